@@ -38,6 +38,10 @@ type JobDef struct {
 	MaxPaths int64
 	MaxSteps int64
 	NoNative bool // no native replay / translator validation possible for this job
+	// EngineOnly / NativeOnly are harness files used on one side only
+	// (bodyless declarations of engine accessors / their native bodies).
+	EngineOnly []string
+	NativeOnly []string
 	Substs   []Subst
 	Bound    string // human-readable statement of the bound
 	// GenFiles are extra generated harness sources (name -> content).
@@ -50,6 +54,7 @@ type CheckDef struct {
 	Jobs        func(tier string) []JobDef
 	Assumptions []string
 	Outside     []string
+	Only        []string // assertion-id prefixes owned by this property
 	// Prepare may generate files (e.g. compile mtail programs natively)
 	// before jobs are built; it returns extra assumptions or an error.
 	Prepare func(tier string, scratch string) error
@@ -90,11 +95,17 @@ type loadKey string
 
 var loadCache = map[loadKey]*Loaded{}
 
-func harnessFiles(j JobDef) (map[string][]byte, []string, error) {
+func harnessFiles(j JobDef, native bool) (map[string][]byte, []string, error) {
 	ov := map[string][]byte{}
 	var names []string
 	pkgName := ""
-	for i, h := range j.Harness {
+	all := append([]string{}, j.Harness...)
+	if native {
+		all = append(all, j.NativeOnly...)
+	} else {
+		all = append(all, j.EngineOnly...)
+	}
+	for i, h := range all {
 		src, err := os.ReadFile(filepath.Join(verifRoot, "harness", h))
 		if err != nil {
 			return nil, nil, err
@@ -134,7 +145,7 @@ func vocabFor(pkgName, tmpl string) ([]byte, error) {
 }
 
 func loadJob(j JobDef) (*Loaded, *ssa.Package, error) {
-	files, _, err := harnessFiles(j)
+	files, _, err := harnessFiles(j, false)
 	if err != nil {
 		return nil, nil, err
 	}
@@ -186,6 +197,7 @@ type replayCase struct {
 	Entry  string           `json:"entry"`
 	Inputs []InputRec       `json:"inputs"`
 	Params map[string]int64 `json:"params"`
+	Only   []string         `json:"only,omitempty"`
 }
 
 type replayResult struct {
@@ -203,7 +215,7 @@ func nativeRun(j JobDef, cases []replayCase) ([]replayResult, string, error) {
 		return nil, "", err
 	}
 	defer os.RemoveAll(scratch)
-	files, names, err := harnessFiles(j)
+	files, names, err := harnessFiles(j, true)
 	if err != nil {
 		return nil, "", err
 	}
@@ -391,7 +403,7 @@ func cmdCheck(args []string) int {
 			fmt.Println("INCONCLUSIVE: entry not found:", j.Entry)
 			return 2
 		}
-		cfg := JobConfig{Name: j.Name, MaxSteps: j.MaxSteps, MaxPaths: j.MaxPaths, Workers: workers, Samples: 2, KnownIDs: knownIDs, Params: j.Params}
+		cfg := JobConfig{Name: j.Name, MaxSteps: j.MaxSteps, MaxPaths: j.MaxPaths, Workers: workers, Samples: 2, KnownIDs: knownIDs, Params: j.Params, Only: c.Only}
 		if cfg.MaxSteps == 0 {
 			cfg.MaxSteps = 5_000_000
 		}
@@ -430,7 +442,7 @@ func cmdCheck(args []string) int {
 				continue
 			}
 			seenV[v.ID]++
-			cases = append(cases, replayCase{Entry: j.Entry, Inputs: v.Inputs, Params: j.Params})
+			cases = append(cases, replayCase{Entry: j.Entry, Inputs: v.Inputs, Params: j.Params, Only: c.Only})
 			caseKind = append(caseKind, "viol:"+v.ID+":"+v.Msg)
 		}
 		var knownOrder []string
@@ -443,7 +455,7 @@ func cmdCheck(args []string) int {
 				continue
 			}
 			v := st.KnownHit[k]
-			cases = append(cases, replayCase{Entry: j.Entry, Inputs: v.Inputs, Params: j.Params})
+			cases = append(cases, replayCase{Entry: j.Entry, Inputs: v.Inputs, Params: j.Params, Only: c.Only})
 			caseKind = append(caseKind, "known:"+k)
 		}
 		nSample := 0
@@ -452,7 +464,7 @@ func cmdCheck(args []string) int {
 				break
 			}
 			in := s["inputs"].([]InputRec)
-			cases = append(cases, replayCase{Entry: j.Entry, Inputs: in, Params: j.Params})
+			cases = append(cases, replayCase{Entry: j.Entry, Inputs: in, Params: j.Params, Only: c.Only})
 			caseKind = append(caseKind, "sample")
 			nSample++
 			if len(samples) < 6 {
